@@ -151,6 +151,27 @@ func (x *Exec) externDefault(fr *Frame, st *State, key string, sig *types.Signat
 }
 
 func (x *Exec) callInvoke(fr *Frame, st *State, ins ssa.Instruction, cc *ssa.CallCommon, recv Value, args []Value, site string) Value {
+	// a method call on a nil interface panics: "ite(c, v, nil)" continues only with v
+	for recv.T != nil && recv.T.kind == kApp && recv.T.Op == "ite" {
+		c, a, b := recv.T.Args[0], recv.T.Args[1], recv.T.Args[2]
+		if b == NilIface() {
+			if fr.nopanic {
+				x.oblige(st, "safe", "nil", x.site(fr, ins), c, "method call on nil interface at "+x.pos(ins))
+			}
+			st.pc = And(st.pc, c)
+			recv = Value{T: a}
+			continue
+		}
+		if a == NilIface() {
+			if fr.nopanic {
+				x.oblige(st, "safe", "nil", x.site(fr, ins), Not(c), "method call on nil interface at "+x.pos(ins))
+			}
+			st.pc = And(st.pc, Not(c))
+			recv = Value{T: b}
+			continue
+		}
+		break
+	}
 	key := ifaceMethodKey(cc.Value.Type(), cc.Method)
 	all := append([]Value{recv}, args...)
 	sig := cc.Method.Type().(*types.Signature)
@@ -723,6 +744,7 @@ func (x *Exec) applyContract(fr *Frame, st *State, con *Contract, sig *types.Sig
 type modRegion struct {
 	Key    string
 	Sort   string
+	Guard  *Term                      // Single: the path to the location dereferences no nil pointer (nil = true)
 	Single *LValue                    // exactly one location (whole cell)
 	In     func(ref, idx *Term) *Term // membership otherwise
 	Ghost  string
@@ -760,11 +782,58 @@ func (x *Exec) modRegion(e *Expr, env *SpecEnv) []modRegion {
 			return And(Eq(ref, sArr(t)), Ge(idx, Add(sOff(t), sLen(t))))
 		}}}
 	}
+	// heap(KEY): a whole heap array
+	if e.Kind == "call" && e.Name == "heap" && len(e.Args) == 1 && e.Args[0].Kind == "id" {
+		k := e.Args[0].Name
+		hs, ok := heapSorts[k]
+		if !ok {
+			env.errf(e, "heap(%s): unknown heap array", k)
+		}
+		return []modRegion{{Key: k, Sort: hs, In: func(r, j *Term) *Term { return True }}}
+	}
+	// all(T, v, pred).f : field f of every object v of type T satisfying pred (QF membership)
+	if e.Kind == "field" && e.Args[0].Kind == "call" && e.Args[0].Name == "all" {
+		c := e.Args[0]
+		if len(c.Args) != 3 || c.Args[1].Kind != "id" {
+			env.errf(e, "all(Type, var, predicate).field expected")
+		}
+		t := env.goType(c.Args[0])
+		su, ok := t.Underlying().(*types.Struct)
+		if !ok {
+			env.errf(e, "all(): %s is not a struct type", t)
+		}
+		vname := c.Args[1].Name
+		pred := c.Args[2]
+		mk := func(i int) modRegion {
+			key, hs := fieldHeapKey(t, i)
+			heapSorts[key] = hs
+			return modRegion{Key: key, Sort: hs, In: func(r, j *Term) *Term {
+				return env.bind(vname, SVal{T: r, GT: types.NewPointer(t)}).boolean(pred)
+			}}
+		}
+		if e.Name == "*" {
+			var out []modRegion
+			for i := 0; i < su.NumFields(); i++ {
+				out = append(out, mk(i))
+			}
+			return out
+		}
+		i := fieldIndex(su, e.Name)
+		if i < 0 {
+			env.errf(e, "type %s has no field %s", t, e.Name)
+		}
+		return []modRegion{mk(i)}
+	}
 	// a star in the middle of the path: the set of locations over all elements
 	if hasInnerStar(e, true) {
 		return x.starRegion(e, env)
 	}
+	var derefs []*Term
+	env2 := *env
+	env2.derefs = &derefs
+	env = &env2
 	v := env.eval(e)
+	guard := And(derefs...)
 	switch v.All {
 	case "fields":
 		b := v.Base
@@ -779,7 +848,7 @@ func (x *Exec) modRegion(e *Expr, env *SpecEnv) []modRegion {
 		var out []modRegion
 		for i := 0; i < su.NumFields(); i++ {
 			lv := x.fieldLV(Value{T: b.T}, pt.Elem(), i)
-			out = append(out, modRegion{Key: lv.Key, Sort: lv.Sort, Single: lv})
+			out = append(out, modRegion{Key: lv.Key, Sort: lv.Sort, Single: lv, Guard: And(guard, Not(Eq(b.T, Int(0))))})
 		}
 		return out
 	case "elems":
@@ -800,8 +869,24 @@ func (x *Exec) modRegion(e *Expr, env *SpecEnv) []modRegion {
 	}
 	lv := *v.LV
 	lv.Path = nil // whole cell
-	return []modRegion{{Key: lv.Key, Sort: lv.Sort, Single: &lv}}
+	return []modRegion{{Key: lv.Key, Sort: lv.Sort, Single: &lv, Guard: guard}}
 }
+
+// singleIn: membership of (ref, idx) in a single-location region.
+func singleIn(reg modRegion, ref, idx *Term) *Term {
+	c := Eq(ref, reg.Single.Ref)
+	if reg.Single.Idx != nil && idx != nil {
+		c = And(c, Eq(idx, reg.Single.Idx))
+	}
+	if reg.Guard != nil {
+		c = And(reg.Guard, c)
+	}
+	return c
+}
+
+// freshOnlyGhost: typestate maps whose entries for identities that existed before a call / loop /
+// function entry are never changed by that call / loop / function (groups are never shared).
+var freshOnlyGhost = map[string]bool{"pending": true, "groupErr": true}
 
 // hasInnerStar: does the location path contain x[*] followed by further selectors?
 func hasInnerStar(e *Expr, top bool) bool {
@@ -911,7 +996,12 @@ func (x *Exec) havocRegions(st, pre *State, regions []modRegion) {
 	var keys []string
 	for _, r := range regions {
 		if r.Ghost != "" {
-			st.setG(r.Ghost, Fresh("G_"+r.Ghost+"_call", ghostSorts[r.Ghost]))
+			ng := Fresh("G_"+r.Ghost+"_call", ghostSorts[r.Ghost])
+			if freshOnlyGhost[r.Ghost] {
+				q := BoundVar("q_fg", "Int")
+				x.assume(st, Forall([]*Term{q}, [][]*Term{{Select(ng, q)}}, Implies(Lt(q, pre.alloc), Eq(Select(ng, q), Select(pre.G(r.Ghost), q)))))
+			}
+			st.setG(r.Ghost, ng)
 			continue
 		}
 		if _, ok := byKey[r.Key]; !ok {
@@ -934,12 +1024,18 @@ func (x *Exec) havocRegions(st, pre *State, regions []modRegion) {
 			cur := h
 			for _, r := range rs {
 				lv := r.Single
+				var upd *Term
 				if lv.Idx != nil {
 					row := Select(cur, lv.Ref)
 					es := elemSortOf(row.Sort)
-					cur = Store(cur, lv.Ref, Store(row, lv.Idx, Fresh("hv_"+k, es)))
+					upd = Store(cur, lv.Ref, Store(row, lv.Idx, Fresh("hv_"+k, es)))
 				} else {
-					cur = Store(cur, lv.Ref, Fresh("hv_"+k, elemSortOf(hs)))
+					upd = Store(cur, lv.Ref, Fresh("hv_"+k, elemSortOf(hs)))
+				}
+				if r.Guard != nil && r.Guard != True {
+					cur = Ite(r.Guard, upd, cur)
+				} else {
+					cur = upd
 				}
 			}
 			st.setH(k, cur)
@@ -951,11 +1047,7 @@ func (x *Exec) havocRegions(st, pre *State, regions []modRegion) {
 			var ds []*Term
 			for _, reg := range rs {
 				if reg.Single != nil {
-					c := Eq(ref, reg.Single.Ref)
-					if reg.Single.Idx != nil && idx != nil {
-						c = And(c, Eq(idx, reg.Single.Idx))
-					}
-					ds = append(ds, c)
+					ds = append(ds, singleIn(reg, ref, idx))
 				} else {
 					ds = append(ds, reg.In(ref, idx))
 				}
@@ -1108,11 +1200,7 @@ func (x *Exec) frameObligations(con *Contract, fn *ssa.Function, args []Value, e
 		var ins []*Term
 		for _, reg := range byKey[k] {
 			if reg.Single != nil {
-				c := Eq(r, reg.Single.Ref)
-				if reg.Single.Idx != nil && idx != nil {
-					c = And(c, Eq(idx, reg.Single.Idx))
-				}
-				ins = append(ins, c)
+				ins = append(ins, singleIn(reg, r, idx))
 			} else {
 				ins = append(ins, reg.In(r, idx))
 			}
@@ -1126,6 +1214,13 @@ func (x *Exec) frameObligations(con *Contract, fn *ssa.Function, args []Value, e
 	}
 	sort.Strings(gs)
 	for _, g := range gs {
+		if freshOnlyGhost[g] && final.G(g) != entry.G(g) {
+			// typestate of groups: a function may only change the entries of groups it created itself
+			r := BoundVar("q_fg", "Int")
+			x.oblige(final, "frame", "ghost:"+g, "", Forall([]*Term{r}, [][]*Term{{Select(final.G(g), r)}},
+				Implies(Lt(r, entry.alloc), Eq(Select(final.G(g), r), Select(entry.G(g), r)))), "typestate ghost "+g+" changes only for identities created by this function")
+			continue
+		}
 		if ghostMod[g] || final.G(g) == entry.G(g) {
 			continue
 		}
